@@ -9,7 +9,7 @@ from .facts import Run
 from .interp import Ctx, Frame, analyse_method
 from .model import AnalysisError, iter_functions
 from .report import RuleResult
-from .terms import Const
+from .terms import Const, Sym
 
 TABLE = "_RUNTIMES"              # rebound by _bind_names() to whatever the tables are called in the tree under analysis
 DEFAULTS = "_DEFAULT_HANDLERS"
@@ -354,6 +354,36 @@ def rule_RE(run: Run) -> RuleResult:
             if e.kind == "store" and len(e.args) == 2 and e.args[0].key() == T_KEY and not (e.target is not None and e.target.key().startswith("call:pop(")):
                 ok2, d2 = False, f"restores {e.target.key()[:60] if e.target is not None else None}, not the value popped from the per-entry stack"
     res.add("labrea.runtime.Runtime.__exit__:restores the runtime saved by the matching entry", ok2, f, ex.lineno, d2, nec)
+    # entries nest: the entry left first is the one entered last, so the stack is taken from the end it was filled at
+    # (append/pop() or appendleft/popleft — never append/pop(0))
+    def _end(e):
+        a0 = e.args[0] if e.args else None
+        if e.text == "append":
+            return "right"
+        if e.text == "appendleft" or (e.text == "insert" and isinstance(a0, Const) and a0.v == 0):
+            return "left"
+        if e.text == "popleft" or (e.text == "pop" and isinstance(a0, Const) and a0.v == 0):
+            return "left"
+        if e.text == "pop" and (a0 is None or (isinstance(a0, Const) and a0.v == -1)):
+            return "right"
+        return "other"
+    push_ends = {_end(e) for p in eps for e in p.events if e.kind == "call" and e.text in ("append", "appendleft", "insert") and e.args and T_KEY in e.args[-1].key()}
+    pop_ends = {_end(e) for p in xps for e in p.events if e.kind == "call" and e.text in ("pop", "popleft") and e.target is not None and e.target.key() != T_KEY}
+    ok_l = len(push_ends) == 1 and push_ends == pop_ends and "other" not in push_ends
+    res.add("labrea.runtime.Runtime.__exit__:takes the saved runtime from the end of the stack __enter__ filled", ok_l, f, ex.lineno,
+            f"pushed at {sorted(push_ends)}, popped at {sorted(pop_ends)}" + ("" if ok_l else ": nested entries of one runtime object are left in the wrong order — the inner exit "
+                                                                               "restores what the outer entry saved"), nec)
+    # what is saved is what the table held for this thread, or nothing: no stand-in (the entered runtime itself, a fresh Runtime)
+    ok_s, d_s = True, "saves _RUNTIMES.get(thread)"
+    for p in eps:
+        for e in p.events:
+            if e.kind == "call" and e.text in ("append", "appendleft", "insert") and e.args and T_KEY in e.args[-1].key():
+                v = e.args[-1]
+                if isinstance(v, Sym) and v.head == "call:get" and v.args and v.args[0].key() == T_KEY:
+                    rest = v.args[2:]
+                    if len(v.args) < 2 or OWN_THREAD not in v.args[1].key() or any(not (isinstance(r_, Const) and r_.v is None) and not (isinstance(r_, Sym) and r_.head == "kw:default" and r_.args and isinstance(r_.args[0], Const) and r_.args[0].v is None) for r_ in rest):
+                        ok_s, d_s = False, f"saves {v.key()[:100]}: a thread without a runtime gets a stand-in saved as its previous runtime, and leaving the block installs that instead of removing the entry"
+    res.add("labrea.runtime.Runtime.__enter__:saves exactly what the table held for the thread", ok_s, f, en.lineno, d_s, nec)
     # the per-thread stack may be discarded only once it is empty (an outer entry of the same runtime still needs it)
     ok3, d3 = True, "the thread's stack is dropped only when empty"
     for p in xps:
@@ -546,9 +576,18 @@ def _current_runtime_callers(run: Run):
     m, rt = _rt(run)
     cur = None
     for q, fi in run.repo.functions.items():
-        if fi.module is m and any(isinstance(x, ast.Call) and isinstance(x.func, ast.Attribute) and x.func.attr == "setdefault" and isinstance(x.func.value, ast.Name)
-                                  and x.func.value.id == TABLE for x in ast.walk(fi.node)):
+        # the reader: takes no argument and hands back what the table holds (or now holds) for the thread
+        if fi.module is m and not (fi.node.args.args or fi.node.args.posonlyargs or fi.node.args.kwonlyargs) and any(
+                isinstance(r_, ast.Return) and r_.value is not None and any(
+                    isinstance(x, ast.Call) and isinstance(x.func, ast.Attribute) and x.func.attr in ("setdefault", "get") and isinstance(x.func.value, ast.Name)
+                    and x.func.value.id == TABLE for x in ast.walk(r_.value)) for r_ in ast.walk(fi.node)):
             cur = fi
+    if cur is None:
+        for q, fi in run.repo.functions.items():
+            if fi.module is m and not (fi.node.args.args or fi.node.args.posonlyargs) and any(
+                    isinstance(x, ast.Call) and isinstance(x.func, ast.Attribute) and x.func.attr == "setdefault" and isinstance(x.func.value, ast.Name)
+                    and x.func.value.id == TABLE for x in ast.walk(fi.node)):
+                cur = fi
     if cur is None:
         return None, []
     out = []
@@ -1025,7 +1064,7 @@ def rule_TI(run: Run) -> RuleResult:
     ok = False
     for a in inh:
         params = [x.arg for x in a.fn.args.args]
-        if a.write and a.key is not None and a.key.key() == OWN_THREAD and a.value is not None and params \
+        if a.write and a.method in ("__setitem__", "update") and a.key is not None and a.key.key() == OWN_THREAD and a.value is not None and params \
                 and a.value.key().startswith(f"call:get({T_KEY},{params[0]}"):
             ok = True
     ih = run.repo.func("labrea.runtime.inherit")
@@ -1034,9 +1073,10 @@ def rule_TI(run: Run) -> RuleResult:
     for p in _paths_of(run, m, ih.node, None):
         if p.status != "ret":
             continue
-        wrote = any(wr and key is not None and key.key() == OWN_THREAD for e, meth, key, val, wr in _table_events(p, T_KEY))
+        # (setdefault does not count: it leaves an entry that is already there)
+        wrote = any(wr and meth in ("__setitem__", "update") and key is not None and key.key() == OWN_THREAD for e, meth, key, val, wr in _table_events(p, T_KEY))
         if not wrote:
             ok = False
-            d_inh = f"a returning path leaves the caller's slot as it is (conditions {[c[0][:40] for c in p.conds]})"
+            d_inh = f"a returning path leaves the caller's slot as it is — setdefault keeps an entry the thread already has (conditions {[c[0][:40] for c in p.conds]})"
     res.add("labrea.runtime.inherit:copies the parent's current runtime into the caller's slot", ok, m.relpath, ih.node.lineno, d_inh, nec)
     return res
